@@ -452,7 +452,7 @@ def budgeted_prove(facts, goal, max_cases=None, budget=None):
         _lin.DEADLINE[0] = old
 
 
-def check_xbuf(ck, it, func, rule="X-BUF", roots=None, skip_funcs=(), strict_slices=False):
+def check_xbuf(ck, it, func, rule="X-BUF", roots=None, skip_funcs=(), strict_slices=False, only_funcs=None):
     """every index / struct.unpack on a byte buffer is proven in bounds (IndexError / struct.error cannot
     occur).  A slice never raises - Python clamps it - so plain slices are only checked when strict_slices is
     set; what a clamped slice would mean for the decoded value is the business of the extent rules
@@ -469,6 +469,8 @@ def check_xbuf(ck, it, func, rule="X-BUF", roots=None, skip_funcs=(), strict_sli
             if rr is None or rr[0].a[0] not in roots:
                 continue
         if r["func"].split(".")[-1] in skip_funcs:
+            continue
+        if only_funcs is not None and r["func"].split(".")[-1] not in only_funcs:
             continue
         g = xbuf_goal(r)
         if g is None:
@@ -996,3 +998,29 @@ def realise(facts, goal, model, tries=400, seed=0):
         if ok:
             return env
     return None
+
+
+# ---------------------------------------------------------------------------- refusals are justified
+def check_short_refusals_justified(ck, it, func, root, need, what, rule="G-REFUSE", exc_suffix=("BytesTooShortError",), r0=0, only_func=None):
+    """The converse of the length refusals: every explicit, uncaught too-short error is raised only when the buffer really
+    is shorter than `need` (the number of octets a well-formed unit of this kind occupies); otherwise well-formed input
+    is refused.  -> number of refusal sites examined"""
+    buf = sym(root, ty="bytes")
+    n = 0
+    for x in it.raises[r0:]:
+        if x["caught"] or x["kind"] != "explicit" or not x["exc"].endswith(tuple(exc_suffix)):
+            continue
+        if only_func is not None and not x["func"].endswith(only_func):
+            continue
+        if not feasible(x["facts"]):
+            continue
+        n += 1
+        cons = f"`{x['text'][:50]}` in {x['func'].split('.')[-1]} refuses only input shorter than {what}"
+        st, m = budgeted_prove(x["facts"], binop("<", length(buf), need))
+        if st == "proved":
+            ck.proved(rule, func, cons, f"path condition implies len({root}) < {show(need)[:60]}")
+        elif st == "refutable":
+            ck.refuted(rule, func, cons, f"well-formed input is refused as too short: {{{', '.join(f'{show(k)[:40]}={v}' for k, v in list(m.items())[:6])}}}", witness=m)
+        else:
+            ck.unknown(rule, func, cons, str(m)[:200])
+    return n
